@@ -95,6 +95,35 @@ pub struct Outcome2 {
     pub finals: Vec<u32>,
     pub events: Vec<String>,
     pub loop_result_ok: bool,
+    /// inlay hints (label, line) of every note, asked through the router after the schedule; None = no answer / error
+    pub final_hints: Vec<Option<Vec<(String, u32)>>>,
+}
+
+/// the text of version `ver` of note `note`: the version heading, a table, and — in even versions — a block
+/// reference and an inline link to the next note *behind the table*, in odd versions plain text there: an edit
+/// that is applied only in part (stale blocks, stale index entries) shows in the hints of the linked note
+pub fn note_text(note: usize, notes: usize, ver: u32) -> String {
+    let other = note_key((note + 1) % notes.max(1));
+    if ver % 2 == 0 {
+        format!("# v{}\n\n| t |\n|---|\n| c{} |\n\n[inc {}]({})\n\nsee [inline]({}) v{}\n", ver, ver, ver, other, other, ver)
+    } else {
+        format!("# v{}\n\n| t |\n|---|\n| c{} |\n\nplain v{}\n", ver, ver, ver)
+    }
+}
+
+/// what a freshly started server says about the final texts
+pub fn fresh_hints(notes: usize, finals: &[u32]) -> Vec<Vec<(String, u32)>> {
+    let state: HashMap<String, String> = (0..notes).map(|n| (note_key(n), note_text(n, notes, finals[n]))).collect();
+    let server = iwes::router::server::Server::new(ServerConfig { base_path: "/lib".to_string(), state, sequential_ids: Some(true), configuration: Configuration::default(), lsp_client: LspClient::Unknown });
+    (0..notes)
+        .map(|n| {
+            server
+                .handle_inlay_hints(lsp_types::InlayHintParams { text_document: lsp_types::TextDocumentIdentifier { uri: lsp_types::Url::parse(&uri(n)).unwrap() }, range: lsp_types::Range::default(), work_done_progress_params: Default::default() })
+                .iter()
+                .map(|h| (match &h.label { lsp_types::InlayHintLabel::String(s) => s.clone(), _ => "?".to_string() }, h.position.line))
+                .collect()
+        })
+        .collect()
 }
 
 fn note_key(n: usize) -> String {
@@ -106,7 +135,7 @@ fn uri(n: usize) -> String {
 }
 
 fn version_of(text: &str) -> Option<u32> {
-    text.trim().strip_prefix("# v").and_then(|v| v.parse().ok())
+    text.lines().next().unwrap_or("").trim().strip_prefix("# v").and_then(|v| v.parse().ok())
 }
 
 /// wait until the shared state has not changed for `quiet`
@@ -151,7 +180,7 @@ pub fn run_schedule(notes: usize, acts: &[Act]) -> Outcome2 {
     }
     let (to_server, server_rx): (Sender<Message>, Receiver<Message>) = unbounded();
     let (server_tx, from_server): (Sender<Message>, Receiver<Message>) = unbounded();
-    let state: HashMap<String, String> = (0..notes).map(|n| (note_key(n), "# v0\n".to_string())).collect();
+    let state: HashMap<String, String> = (0..notes).map(|n| (note_key(n), note_text(n, notes, 0))).collect();
     let router = Router::new(server_tx, ServerConfig { base_path: "/lib".to_string(), state, sequential_ids: Some(true), configuration: Configuration::default(), lsp_client: LspClient::Unknown });
     let handle = std::thread::spawn(move || router.run(server_rx).is_ok());
     let send = |m: &Msg| match m {
@@ -167,7 +196,7 @@ pub fn run_schedule(notes: usize, acts: &[Act]) -> Outcome2 {
             to_server
                 .send(Message::Notification(Notification {
                     method: "textDocument/didChange".to_string(),
-                    params: json!({"textDocument": {"uri": uri(*note), "version": ver}, "contentChanges": [{"text": format!("# v{}\n", ver)}]}),
+                    params: json!({"textDocument": {"uri": uri(*note), "version": ver}, "contentChanges": [{"text": note_text(*note, notes, *ver)}]}),
                 }))
                 .unwrap();
         }
@@ -229,6 +258,33 @@ pub fn run_schedule(notes: usize, acts: &[Act]) -> Outcome2 {
             }
         }
     }
+    // …and what every note's hints say (answered from the same state)
+    let mut final_hints: Vec<Option<Vec<(String, u32)>>> = vec![];
+    for n in 0..notes {
+        let id = 910_000 + n as i32;
+        to_server
+            .send(Message::Request(Request {
+                id: RequestId::from(id),
+                method: "textDocument/inlayHint".to_string(),
+                params: json!({"textDocument": {"uri": uri(n)}, "range": {"start": {"line": 0, "character": 0}, "end": {"line": 0, "character": 0}}}),
+            }))
+            .unwrap();
+        let deadline = Instant::now() + Duration::from_secs(if drained { 30 } else { 3 });
+        let mut got = None;
+        loop {
+            match from_server.recv_timeout(deadline.saturating_duration_since(Instant::now())) {
+                Ok(Message::Response(r)) if format!("{}", r.id) == id.to_string() => {
+                    got = r.result.as_ref().and_then(|v| v.as_array()).map(|a| {
+                        a.iter().map(|h| (h["label"].as_str().unwrap_or("?").to_string(), h["position"]["line"].as_u64().unwrap_or(0) as u32)).collect::<Vec<_>>()
+                    });
+                    break;
+                }
+                Ok(m) => inbox.push(m),
+                Err(_) => break,
+            }
+        }
+        final_hints.push(got);
+    }
     to_server.send(Message::Notification(Notification { method: "exit".to_string(), params: json!(null) })).unwrap();
     let loop_result_ok = handle.join().unwrap_or(false);
     while let Ok(m) = from_server.try_recv() {
@@ -258,5 +314,5 @@ pub fn run_schedule(notes: usize, acts: &[Act]) -> Outcome2 {
         g.events.clone()
     };
     verif::set_hook(None);
-    Outcome2 { replies, duplicate_replies, finals, events, loop_result_ok }
+    Outcome2 { replies, duplicate_replies, finals, events, loop_result_ok, final_hints }
 }
